@@ -24,6 +24,7 @@ fn main() {
         "name_spelling" => name_spelling(&input),
         "simplify_value" => simplify_value(&input),
         "frame_match" => frame_match(&input),
+        "expand_terminates" => expand_terminates(&input),
         other => {
             eprintln!("unknown replay kind {other}");
             std::process::exit(64);
@@ -328,6 +329,22 @@ fn frame_match(text: &str) -> Result<(), String> {
                 expect("blocked", &m.blocked, defined.iter().copied().filter(|f| shares(f, &qs) && !exactly(f, &qs)).collect())?;
             }
             _ => {}
+        }
+    }
+    Ok(())
+}
+
+/// C18: expanding calibrations returns (the program or a recursive-calibration error); a stack overflow aborts this
+/// process, which the caller sees as a non-zero exit status
+fn expand_terminates(text: &str) -> Result<(), String> {
+    let program = Program::from_str(text).map_err(|e| format!("input does not parse: {e}"))?;
+    match program.expand_calibrations() {
+        Ok(p) => println!("expanded: {} body instructions", p.body_instructions().count()),
+        Err(e) => {
+            println!("error: {e}");
+            if !matches!(e, quil_rs::program::ProgramError::RecursiveCalibration(_)) {
+                return Err(format!("expansion failed with an error other than a recursive calibration: {e}"));
+            }
         }
     }
     Ok(())
